@@ -234,7 +234,20 @@ let run_crew k multi wko tr op ss ts sid tid aid post sst tst est =
   let (s2, f2, _) =
     match post with
     | "none" -> (s1, f, w2)
-    | "clear" -> let (s', w') = get (cc_clear k s1 w2) in (s', f, w')
+    | "clear" ->
+      (* the GENERATED Clear (cxx2coq) on the abstracted fields decides ok / stuck; the hand model must agree *)
+      let crew_null = (match s1 with MovedFrom -> true | _ -> false) in
+      let storage = (match s1 with Owned (_, _ :: _, _) -> z 1 | _ -> z 0) in
+      let cnt = z (Stdlib.List.length (items_of s1)) in
+      let gen_ok = (match k with
+          | KTree -> (match Gen_TreeSet.coq_Clear crew_null cnt storage storage with GenPrelude.Ok _ -> true | _ -> false)
+          | KHash -> (match Gen_HashSet.coq_Clear crew_null cnt cnt storage true with GenPrelude.Ok _ -> true | _ -> false)
+          | KMulti -> (match Gen_HashMultiMap.coq_Clear crew_null cnt with GenPrelude.Ok _ -> true | _ -> false)
+          | KTable -> (match Gen_DataTable.coq_Clear crew_null with GenPrelude.Ok _ -> true | _ -> false)) in
+      let hand = cc_clear k s1 w2 in
+      if gen_ok <> (match hand with Ok _ -> true | _ -> false) then failwith "generated-Clear-disagrees-with-the-hand-model";
+      if not gen_ok then raise Abort;
+      let (s', w') = get hand in (s', f, w')
     | "swapf" -> if wrap then let ((s', f'), w') = get (w_swap trv s1 f w2) in (s', f', w')
                  else let (s', f') = cc_swap s1 f in (s', f', w2)
     | "fswap" -> if wrap then let ((f', s'), w') = get (w_swap trv f s1 w2) in (s', f', w')
@@ -254,8 +267,24 @@ let run_crew k multi wko tr op ss ts sid tid aid post sst tst est =
     | "ilist" -> if wrap then let (s', w') = get (w_assign_ilist wk multi s1 [z 400001; z 400004] w2) in (s', f, w') else (s1, f, w2)
     | _ -> failwith "post" in
   let useF = useF || Stdlib.List.mem post ["fmove"; "ccopy"; "find"] in
-  Printf.printf "%s S2=%s s2c=%s F=%s fc=%s E=0\n" line1 (ids (mgr_of s2)) (show (il (items_of s2)))
-    (if useF then ids (mgr_of f2) else "-") (if useF then show (il (items_of f2)) else "[]")
+  (* structure of the source after Clear(): from the fields the generated Clear returns *)
+  let s2s =
+    if post <> "clear" then "-" else
+    match s2 with
+    | MovedFrom -> "null"
+    | Owned _ ->
+      let storage = (match s1 with Owned (_, _ :: _, _) -> z 1 | _ -> z 0) in
+      let cnt = z (Stdlib.List.length (items_of s1)) in
+      (match k with
+       | KTree -> (match Gen_TreeSet.coq_Clear false cnt storage storage with
+           | GenPrelude.Ok (((_, _), r'), p') -> if iz r' = 0 && iz p' = 0 then "T0:" else "T1:0.0" | _ -> "stuck")
+       | KHash -> (match Gen_HashSet.coq_Clear false cnt cnt storage true with
+           | GenPrelude.Ok (((_, _), _), b') -> if iz b' = 0 then "H" else "H0" | _ -> "stuck")
+       | KMulti -> "M0:0.0"
+       | KTable -> let is = (if op = "swap" then idxT else idxS) in      (* the index DEFINITIONS stay, without entries *)
+         "D0.0:" ^ show_idx (Stdlib.List.map (fun i -> (i.iunique, nat_of_int 0)) is)) in
+  Printf.printf "%s S2=%s s2c=%s F=%s fc=%s s2s=%s E=0\n" line1 (ids (mgr_of s2)) (show (il (items_of s2)))
+    (if useF then ids (mgr_of f2) else "-") (if useF then show (il (items_of f2)) else "[]") s2s
 
 
 (* ---- inline-crew sets with stateful traits (Crew.v): the ids are traits states *)
@@ -299,8 +328,8 @@ let run_inl ishash op ss ts sid tid aid post sst tst =
     | "ccopy" -> (s1, iset_copy_ctor rb s1)
     | "find" -> if iset_find s1 (z 1003) then (s1, iset_insert f (z 1)) else (s1, f)
     | _ -> failwith "post" in
-  Printf.printf "%s S2=%s s2c=%s F=%s fc=%s E=0\n" line1 (tid_s s2) (show (il s2.is_items))
-    (if useF then tid_s f2 else "-") (if useF then show (il f2.is_items) else "[]")
+  Printf.printf "%s S2=%s s2c=%s F=%s fc=%s s2s=%s E=0\n" line1 (tid_s s2) (show (il s2.is_items))
+    (if useF then tid_s f2 else "-") (if useF then show (il f2.is_items) else "[]") (if post = "clear" then empty_tok else "-")
 
 let run_arr ic isvec tr op ss ts sid tid aid post =
   let selfnone = (op = "none" || (String.length op >= 4 && String.sub op 0 4 = "self")) in
@@ -361,8 +390,8 @@ let run_arr ic isvec tr op ss ts sid tid aid post =
     | "ilist" -> (s1, f, w2)
     | _ -> failwith "post" in
   let useF = useF || Stdlib.List.mem post ["fmove"; "ccopy"; "find"] in
-  Printf.printf "%s S2=%d s2c=%s F=%s fc=%s E=0\n" line1 (iz s2.amgr) (show (il s2.aitems))
-    (if useF then string_of_int (iz f2.amgr) else "-") (if useF then show (il f2.aitems) else "[]")
+  Printf.printf "%s S2=%d s2c=%s F=%s fc=%s s2s=%s E=0\n" line1 (iz s2.amgr) (show (il s2.aitems))
+    (if useF then string_of_int (iz f2.amgr) else "-") (if useF then show (il f2.aitems) else "[]") (if post = "clear" then "A" else "-")
 
 let () = iter_lines (fun line ->
   match words line with
